@@ -78,7 +78,9 @@ def d_tasks(msgs, tier):
                 l1 = {0, sn - 1, sn + 1}
             ks = [1]
         else:
-            l2 = set(range(0, 256)) | {256, 300}
+            # every length up to two bytes past the extended size (beyond it the decoder only ignores the tail), then
+            # the protocol maximum and beyond
+            l2 = set(range(0, se + 3)) | {254, 255, 256, 300}
             l1 = {0, 1, sn - 1, sn, sn + 1, se, 255}
             if heavy:
                 first = min(f.off for f in strs)
